@@ -4,6 +4,7 @@ scratch copy of /repo and records which checks fire with which keys."""
 import os, sys, json, subprocess, glob, re, tempfile, shutil
 VERIF = os.path.dirname(os.path.dirname(os.path.abspath(__file__)))
 NEEDS = {
+ 'C04-overlay-entry-parked-across-commits': 'mixed state (tree keys around the cursor, an unprocessed overlay entry ahead), a further commit touching the gap or the parked key while the iterator is open, no seek/direction change in between (patch rebased onto the F17 fix)',
  'C15-commit-throttle-loop-ignores-bg-error': 'background threads, a committer parked on the full commit queue (> 16 MiB), then an I/O error in the log worker with more than 16 MiB still queued (patch rebased onto the F16 fix; original kept as patch.orig-776afcf.diff)',
  'C07-reset-skipped-on-size-mismatch': 'a ref-counted column with lz4/snappy, a value above the compression threshold that really compresses, and a repeated Set of the present key',
  'C13-sequence-advanced-before-validation': 'at least two log files at open, the last record of a non-final file damaged so that LogReader::next fails (CRC flip / truncation in the trailing checksum), the next file starting with the following record id',
@@ -70,6 +71,7 @@ NEEDS = {
  'C07-skip-set-if-present': 'three queued commits Set(k) / Dereference(k) to zero / Set(k); read after the first two were processed',
 }
 ORIGIN = {
+ 'C04-overlay-entry-parked-across-commits': "rule added after this seed exposed the gap (the iterator keeps no reference-counted overlay key/value between calls; every step queries the overlay); the agent's side note led to defect F17 (seek_to_last keeps the parked tree entry), fixed in /repo 631da66 with rule C04 2m",
  'C15-commit-throttle-loop-ignores-bg-error': "rule added after this seed exposed the gap (a throttle wait that can be re-entered looks at the error slot on every trip); the seeding agent's side note led to defect F16 (commit arriving after the worker died parks forever), fixed in /repo 64b77bd with rules C15 2g/2h",
  'C07-reset-skipped-on-size-mismatch': 'rule strengthened after this seed (C07 2b only required the increment to be reachable; 2f requires it on every success path of the arm)',
  'C13-sequence-advanced-before-validation': 'rules existed before the seed (sequence guard form, last_enacted advanced only after validation, no apply after advance)',
